@@ -44,6 +44,8 @@ func checkC18(c *Ctx) {
 	c.retentionFresh("topics", "rnode", map[string]string{})
 	// per-object buffers and lists do not start as views of package-level memory
 	c.noSharedBacking()
+	// a position read under a lock is not used after the lock was released and taken again
+	c.staleAcrossSections(pkgSessions, pkgTopics, pkgService, pkgAuth)
 }
 
 // writeOnce: fields that are written under their lock exactly once per object, in the
